@@ -43,12 +43,12 @@ func Unpack(buf []byte, dotu bool) (fc *Fcall, fcsz int, err error) {
 
 	var sz uint32
 	if dotu {
-		sz = minFcsize[fc.Type-Tversion]
-	} else {
 		sz = minFcusize[fc.Type-Tversion]
+	} else {
+		sz = minFcsize[fc.Type-Tversion]
 	}
 
-	if fc.Size < sz {
+	if fc.Size-7 < sz {
 		goto szerror
 	}
 
@@ -77,7 +77,7 @@ func Unpack(buf []byte, dotu bool) (fc *Fcall, fcsz int, err error) {
 		}
 
 		if dotu {
-			if len(p) > 0 {
+			if len(p) >= 4 {
 				fc.Unamenum, p = gint32(p)
 			} else {
 				fc.Unamenum = NOUID
@@ -106,7 +106,7 @@ func Unpack(buf []byte, dotu bool) (fc *Fcall, fcsz int, err error) {
 		}
 
 		if dotu {
-			if len(p) > 0 {
+			if len(p) >= 4 {
 				fc.Unamenum, p = gint32(p)
 			} else {
 				fc.Unamenum = NOUID
@@ -119,6 +119,9 @@ func Unpack(buf []byte, dotu bool) (fc *Fcall, fcsz int, err error) {
 			goto szerror
 		}
 		if dotu {
+			if len(p) < 4 {
+				goto szerror
+			}
 			fc.Errornum, p = gint32(p)
 		} else {
 			fc.Errornum = 0
@@ -138,6 +141,9 @@ func Unpack(buf []byte, dotu bool) (fc *Fcall, fcsz int, err error) {
 
 	case Rwalk:
 		m, p = gint16(p)
+		if len(p) < int(m)*13 {
+			goto szerror
+		}
 		fc.Wqid = make([]Qid, m)
 		for i := 0; i < int(m); i++ {
 			p = gqid(p, &fc.Wqid[i])
@@ -155,6 +161,9 @@ func Unpack(buf []byte, dotu bool) (fc *Fcall, fcsz int, err error) {
 		fc.Fid, p = gint32(p)
 		fc.Name, p = gstr(p)
 		if p == nil {
+			goto szerror
+		}
+		if len(p) < 5 {
 			goto szerror
 		}
 		fc.Perm, p = gint32(p)
@@ -184,13 +193,10 @@ func Unpack(buf []byte, dotu bool) (fc *Fcall, fcsz int, err error) {
 		fc.Offset, p = gint64(p)
 		fc.Count, p = gint32(p)
 		if len(p) != int(fc.Count) {
-			fc.Data = make([]byte, fc.Count)
-			copy(fc.Data, p)
-			p = p[len(p):]
-		} else {
-			fc.Data = p
-			p = p[fc.Count:]
+			goto szerror
 		}
+		fc.Data = p
+		p = p[fc.Count:]
 
 	case Rwrite:
 		fc.Count, p = gint32(p)
@@ -208,7 +214,10 @@ func Unpack(buf []byte, dotu bool) (fc *Fcall, fcsz int, err error) {
 	case Twstat:
 		fc.Fid, p = gint32(p)
 		_, p = gint16(p)
-		p, _ = gstat(p, &fc.Dir, dotu)
+		p, err = gstat(p, &fc.Dir, dotu)
+		if err != nil {
+			return nil, 0, err
+		}
 
 	case Rflush, Rclunk, Rremove, Rwstat:
 	}
